@@ -17,8 +17,9 @@ compared does not depend on their order."
 * exactness — full for equal units (`exact_same_unit`, `exact_no_unit`); for different units the full statement
   `C21_exact_full` is **false** of the code (pint converts with 28-digit Decimals): `C21_exact_counterexample`;
   `C21_exact_partial` proves it under the hypothesis that the conversion of the second operand is exact.
-* a comparison of comparable units answers — `C21_total_full` is **false** ('%' vs 'mol%'):
-  `C21_total_counterexample`, `C21_total_partial`.
+* a comparison of comparable units answers — `C21_total`: full for every table whose same-quantity units are
+  convertible (`T.Convertible`); `C21_total_counterexample` shows on a two-row table that it fails otherwise
+  (pint's reading of 'mol%'); `C21_total_partial` is the per-pair form.
 -/
 namespace OPM.C21
 open OPM.Units
@@ -263,18 +264,39 @@ def C21_total_full (T : UnitSys) : Prop :=
     parseDec va = .num x → parseDec vb = .num y →
     ∃ r, compareValues T op va (some a) vb (some b) = .ok r
 
-/-- False of the code: `%` and `mol%` are comparable, but pint reads `mol%` as mole·percent and refuses the
-    conversion (`ValueError("Conversion error")`). -/
-theorem C21_total_counterexample : ¬ C21_total_full OPM.Gen.unitSys := by
+/-- Holds for every table whose units of one quantity are all convertible by pint (`T.Convertible`, a decidable
+    table fact).  For the table the code defines, `Convertible` is established by the C20 repair that makes `mol%` a
+    plain percentage (`OPM.C20.table_convertible`); it is false for the table of a tree without that repair. -/
+theorem C21_total (T : UnitSys) (hC : T.Convertible = true) : C21_total_full T := by
+  intro op va vb a b x y hop hc hx hy
+  obtain ⟨p, hp⟩ := numOperands_ok hC x y hc
+  obtain ⟨x', y'⟩ := p
+  simp only [compareValues, operands_num _ _ hx hy, hp, applyOp]
+  simp only [allOps, List.mem_cons, List.mem_nil_iff, or_false] at hop
+  rcases hop with h | h | h | h | h | h | h <;> subst h <;> exact ⟨_, rfl⟩
+
+/-- A table in which pint reads the second unit of a quantity with another dimensionality — what pint does with
+    `mol%` (mole·percent) unless it is told otherwise. -/
+def molPercentTable : UnitSys :=
+  ⟨[⟨"%", "percentage", mkRat 1 100, 0, some ⟨0, 0, none, 0, 1⟩⟩,
+    ⟨"mol%", "percentage", mkRat 1 100, 0, some ⟨2, 1, none, 2, 3⟩⟩],
+   ["percentage"], []⟩
+
+/-- The full statement does not follow from the code of `units.py` alone: for `molPercentTable` the two units are
+    comparable, but the comparison raises `ValueError("Conversion error")`.  (This was the state of /repo when C21 was
+    built; finding `comparison-raises:%|mol%`.) -/
+theorem C21_total_counterexample : ¬ C21_total_full molPercentTable := by
   intro h
   obtain ⟨r, hr⟩ := h "=" "1" "1" "%" "mol%" 1 1 (by decide) (by decide +kernel) (by decide +kernel)
     (by decide +kernel)
   revert hr
-  have : compareValues OPM.Gen.unitSys "=" "1" (some "%") "1" (some "mol%") = .error .conversion := by
+  have : compareValues molPercentTable "=" "1" (some "%") "1" (some "mol%") = .error .conversion := by
     decide +kernel
   rw [this]
   intro hr
   cases hr
+
+example : molPercentTable.WF = true ∧ molPercentTable.Convertible = false := by decide +kernel
 
 /-- Partial: whenever pint can convert the second operand (which only fails for units of different pint
     dimensionality), every valid operator answers. -/
